@@ -198,11 +198,17 @@ impl<'tcx> Cx<'tcx> {
                         }
                         _ => format!("{}", f.index()),
                     };
-                    J::Obj(vec![
+                    let mut o = vec![
                         ("k", s("field")),
                         ("name", s(name)),
                         ("idx", J::Num(f.index() as i128)),
-                    ])
+                    ];
+                    // container ADT and variant: lets the analysis re-bind renamed fields by position
+                    if let ty::Adt(adt, _) = pty.ty.kind() {
+                        o.push(("adt", s(self.path(adt.did()))));
+                        o.push(("vidx", J::Num(pty.variant_index.map(|v| v.index()).unwrap_or(0) as i128)));
+                    }
+                    J::Obj(o)
                 }
                 PlaceElem::Index(l) => {
                     J::Obj(vec![("k", s("index")), ("local", J::Num(l.index() as i128))])
@@ -224,11 +230,15 @@ impl<'tcx> Cx<'tcx> {
                         ty::Adt(adt, _) => adt.variant(v).name.to_string(),
                         _ => name.map(|n| n.to_string()).unwrap_or_else(|| format!("{}", v.index())),
                     };
-                    J::Obj(vec![
+                    let mut o = vec![
                         ("k", s("downcast")),
                         ("variant", s(nm)),
                         ("vidx", J::Num(v.index() as i128)),
-                    ])
+                    ];
+                    if let ty::Adt(adt, _) = pty.ty.kind() {
+                        o.push(("adt", s(self.path(adt.did()))));
+                    }
+                    J::Obj(o)
                 }
                 _ => J::Obj(vec![("k", s("other"))]),
             };
